@@ -1,4 +1,4 @@
-\* C18/C17: the hand-written sample trees covering every node kind (Mode "samples": rendered and traversed, not parsed by the model)
+\* C18/C17: the hand-written sample trees covering every node kind (focus "samples": rendered and traversed, not parsed by the model)
 SPECIFICATION Spec
 CONSTANTS
   Foci <- SampleFoci
